@@ -46,6 +46,16 @@ type FakeServer struct {
 	maxFrame atomic.Int64 // largest payload among them
 	log     []string
 	seen    []SeenRequest
+	// tunnels: GET halves of RTSP-over-HTTP tunnels by session cookie; tunnelReqs: the tunnel-level requests seen
+	tunnels    map[string]*tunnelHalf
+	tunnelReqs []string
+}
+
+// TunnelRequests returns the tunnel-level requests (TUNNEL-GET, TUNNEL-POST, TUNNEL-WS) seen so far.
+func (s *FakeServer) TunnelRequests() []string {
+	s.mu.Lock()
+	defer s.mu.Unlock()
+	return append([]string(nil), s.tunnelReqs...)
 }
 
 func (s *FakeServer) Start() error {
@@ -228,8 +238,11 @@ func (s *FakeServer) serve(nc net.Conn) {
 		}()
 		nc = tc
 	}
-	co := conn.NewConn(bufio.NewReader(nc), nc)
-	st := &fakeConnState{}
+	br := bufio.NewReader(nc)
+	if pk, err := br.Peek(4); err == nil && (string(pk) == "GET " || string(pk) == "POST") {
+		s.serveTunnel(nc, br) // RTSP over HTTP or WebSocket (fakeserver_tunnel.go)
+		return
+	}
 	var wmu sync.Mutex
 	write := func(b []byte) error {
 		wmu.Lock()
@@ -238,6 +251,12 @@ func (s *FakeServer) serve(nc net.Conn) {
 		_, err := nc.Write(b)
 		return err
 	}
+	s.rtspLoop(conn.NewConn(br, nc), nc, write)
+}
+
+// rtspLoop reads requests from co and answers them through write (the same connection, or the other half of a tunnel).
+func (s *FakeServer) rtspLoop(co *conn.Conn, nc net.Conn, write func([]byte) error) {
+	st := &fakeConnState{}
 	for {
 		what, err := co.Read()
 		if err != nil {
@@ -556,14 +575,16 @@ func rtpBytes(pt byte, seq uint16, ssrc uint32) []byte {
 
 // sendMedia sends a few RTP packets per set-up media after a successful PLAY.
 func (s *FakeServer) sendMedia(st *fakeConnState, write func([]byte) error) {
-	for k := 0; k < 3; k++ {
+	// payload type 96 is what the descriptions announce for ordinary medias; 0 is the back channel's: a hostile server
+	// sends it on every channel, the back channel's own included (where media is supposed to flow the other way)
+	for k := 0; k < 5; k++ {
 		for i, ch := range st.channels {
-			pk := rtpBytes(96, uint16(100+k), uint32(0x1000+i))
+			pk := rtpBytes([]byte{96, 96, 0, 96, 0}[k], uint16(100+k), uint32(0x1000+i))
 			fr := append([]byte{0x24, byte(ch), byte(len(pk) >> 8), byte(len(pk))}, pk...)
 			write(fr)
 		}
 		for i, cp := range st.clientPorts {
-			s.udp[0].WriteToUDP(rtpBytes(96, uint16(100+k), uint32(0x2000+i)), &net.UDPAddr{IP: net.ParseIP("127.0.0.1"), Port: cp[0]})
+			s.udp[0].WriteToUDP(rtpBytes([]byte{96, 96, 0, 96, 0}[k], uint16(100+k), uint32(0x2000+i)), &net.UDPAddr{IP: net.ParseIP("127.0.0.1"), Port: cp[0]})
 		}
 	}
 }
